@@ -17,7 +17,7 @@ func init() {
 	register(&Property{
 		Meta: report.Meta{
 			Property:    "C18",
-			Explanation: "Error-discipline analysis (engine E6) over the stream-handling code: the set S of functions of packages container, token, delegation, invocation, envelope reachable from the exported functions that take an io.Reader / io.Writer (plus the CIDReader/CIDWriter methods) is computed on the in-module call graph; in S every call, defer or go whose callee returns an error and that is stream-related (its receiver or an argument implements io.Reader or io.Writer, or the callee is itself in S) must not lose that error: the error value must be used, every path on which it is tested non-nil must end in a failure return / false / panic or hand the error to the iterator consumer, and a deferred call may not return an error. Exemptions are a frozen table with reasons (hash.Hash.Write never fails; io.EOF ends the CAR iteration - the documented undetectable cut; calls on paths that already return an error). (R2) ldRead converts io.EOF from ReadUvarint / ReadFull into io.ErrUnexpectedEOF and only the Peek EOF propagates as a clean end; (R3) CIDReader.Read latches every non-EOF error and CID() returns it; FromSealedReader requires CID() to succeed. Independence from chunking is the contract of bufio / io.ReadFull / base64 / refmt and is not decided. (R4) no object is put back into a sync.Pool while still reachable from what the function returns (positive example under lint/testdata/canary/pool). A function literal run by defer may store an error only into a named result of the enclosing function.",
+			Explanation: "Error-discipline analysis (engine E6) over the stream-handling code: the set S of functions of packages container, token, delegation, invocation, envelope reachable from the exported functions that take an io.Reader / io.Writer (plus the CIDReader/CIDWriter methods) is computed on the in-module call graph; in S every call, defer or go whose callee returns an error and that is stream-related (its receiver or an argument implements io.Reader or io.Writer, or the callee is itself in S) must not lose that error: the error value must be used, every path on which it is tested non-nil must end in a failure return / false / panic or hand the error to the iterator consumer, and a deferred call may not return an error. Exemptions are a frozen table with reasons (hash.Hash.Write never fails; io.EOF ends the CAR iteration - the documented undetectable cut; calls on paths that already return an error). (R2) ldRead converts io.EOF from ReadUvarint / ReadFull into io.ErrUnexpectedEOF and only the Peek EOF propagates as a clean end; (R3) CIDReader.Read latches every non-EOF error and CID() returns it; FromSealedReader requires CID() to succeed. Independence from chunking is the contract of bufio / io.ReadFull / base64 / refmt and is not decided. (R4) no object is put back into a sync.Pool while still reachable from what the function returns (positive example under lint/testdata/canary/pool). A function literal run by defer may store an error only into a named result of the enclosing function. On a path that reaches a success return without testing the error of a stream-related call, the error is returned, stored, passed to a call or appears in a fact. No instruction of a library function stores through, or lets copy / append / Put* / Read / a dst or buf parameter fill, a package-level array or slice of numbers, bytes.Buffer or strings.Builder. (R5) every io.Reader / io.Writer argument of a call that leaves the module originates in a parameter, a captured variable, a field, a value of a module type or bufio / base64 / bytes constructors.",
 			Assumptions: []string{"bufio, io.ReadFull, encoding/base64 and the refmt-based codecs are correct under arbitrary chunking", "hash.Hash.Write never returns an error (documented)"},
 			Trusted:     []string{"bufio", "io", "encoding/base64", "go-ipld-prime codecs", "golang.org/x/tools/go/ssa v0.29.0"},
 			NotDecided:  []string{"chunking independence", "byte equality of streamed and buffered output (runtime values)"},
@@ -35,13 +35,16 @@ func runC18(x *Ctx) {
 	x.C.Rule("C18.R1", "no error of a stream-related call is dropped in the stream-handling code", 40)
 	x.C.Rule("C18.R2", "ldRead: unexpected EOF inside a section is not a clean end; no other refusal", 5)
 	x.C.Rule("C18.R3", "CIDReader latches read errors; CID() reports them", 3)
-	x.C.Rule("C18.R4", "stream code shares no pooled state that outlives a call", 2)
+	x.C.Rule("C18.R4", "stream code shares no pooled state that outlives a call and no package-level scratch buffer", 3)
 	carWriterAbort(x, "C18.R1")
 	x.poolDiscipline("C18.R4", "token/internal/envelope", "token", "token/delegation", "token/invocation")
+	sharedScratch(x, "C18.R4")
 
 	S := ioFunctionSet(x)
 	x.C.Extra["stream_functions"] = len(S)
 	errorDiscipline(x, S)
+	x.C.Rule("C18.R5", "the caller's stream reaches the codecs whole: no limiting or sampling wrapper in between", 1)
+	wholeStream(x, S)
 	deferredErrorCells(x, S)
 
 	if f := x.fn("C18.R2", ctnPkg+"ldRead"); f != nil {
@@ -346,11 +349,20 @@ func errorHandled(x *Ctx, f *ssa.Function, call *ssa.Call) (bool, string) {
 			continue
 		}
 		e := p.Term(ev)
+		if e == nil || e.IsNil() {
+			continue // a helper enumerated in place: on this path it returned no error
+		}
 		pol, tested := p.FactOn(eqs(e.String(), "const(nil)"))
-		if !tested || pol {
+		if tested && pol {
 			continue
 		}
 		if failing(p) {
+			continue
+		}
+		untested := !tested
+		if untested && (p.End != paths.EndReturn || !returnsError(f.Signature)) {
+			// the path stops at a loop latch (what happens to the error is decided on the paths that go on), or the
+			// function has no error of its own to report (a deferred literal: covered by the named-result rule)
 			continue
 		}
 		// io.EOF as clean end of a section iteration (documented)
@@ -381,6 +393,24 @@ func errorHandled(x *Ctx, f *ssa.Function, call *ssa.Call) (bool, string) {
 				if r.Contains(e.String()) {
 					handed = true
 				}
+			}
+		}
+		if !handed && untested {
+			// looked at in some other way (errors.Is, a comparison with a sentinel, a call that receives it)?
+			for _, fc := range p.Facts {
+				if fc.Atom.Contains(e.String()) {
+					handed = true
+				}
+			}
+			for _, c := range p.Calls() {
+				for _, a := range p.Term(c).Args {
+					if a != nil && a.Contains(e.String()) {
+						handed = true
+					}
+				}
+			}
+			if !handed {
+				return false, "on this path the error is neither looked at nor passed on, and the function succeeds:\n" + p.String()
 			}
 		}
 		if !handed {
